@@ -72,6 +72,13 @@ mod verif_yr {
             transfer_characteristics: TC::BT1886, color_primaries: CP::BT709 }
     }
     fn clampd(x: f64, lo: f64, hi: f64) -> f64 { if x < lo { lo } else if x > hi { hi } else { x } }
+    /// unpadded stand-in for Plane::new in the encode wiring lemma (the real 64-byte aligned allocation is exercised by C13's encode harnesses)
+    fn stub_plane_new<T: Pixel>(width: usize, height: usize, xdec: usize, ydec: usize, _xpad: usize, _ypad: usize) -> Plane<T> {
+        let buf = vec![T::cast_from(128u8); width * height];
+        let mut p = Plane::from_slice(&buf, width);
+        p.cfg.xdec = xdec; p.cfg.ydec = ydec;
+        p
+    }
 '''
 EPILOGUE = "}\n"
 
@@ -205,8 +212,9 @@ def w_encode(T, bd, full, mi):
     name = "k_yr_we_%s_m%d" % (cname(T, bd, full), mi)
     return name, r'''
     #[kani::proof]
-    #[kani::unwind(66)]
+    #[kani::unwind(6)]
     #[kani::stub(yuvxyb_math::matrix::Matrix::mul_arr, yuvxyb_math::matrix::verif_stub_mul_arr)]
+    #[kani::stub(v_frame::plane::Plane::new, stub_plane_new)]
     fn %(name)s() {
         let in_mi: u8 = %(mi)d;
         let in_r: f32 = kani::any(); let in_g: f32 = kani::any(); let in_b: f32 = kani::any();
@@ -422,3 +430,51 @@ def replay_codes(ctx, spec, f):
             rep = rep or bool(r.get("reproduced"))
         return {"reproduced": rep, "detail": "; ".join(o["detail"] for o in outs if o.get("reproduced"))[:600] or "end-to-end property holds natively for a grey pixel at the counterexample value", "kind": "yuv", "args": outs[0]["args"]}
     return {"reproduced": None, "detail": "no replay recipe"}
+
+
+def replay_glue(ctx, q, res, kind, mc, bd, full):
+    """turn a satisfying real-valued glue model into concrete codes / a concrete pixel and evaluate the property natively"""
+    import struct
+    m = glue.parse_model(res.get("model", ""))
+    maxv = (1 << bd) - 1
+    T = "u16"
+    outs = []
+    fb = lambda v: "%x" % struct.unpack("<I", struct.pack("<f", float(v)))[0]
+    if kind == "c01":
+        if not all(k in m for k in ("ys", "us", "vs")):
+            return {"reproduced": None, "detail": "model values not found"}
+        codes = []
+        for j, k in enumerate(("ys", "us", "vs")):
+            s_, o_ = quant_consts(bd, full, j > 0)
+            codes.append(min(maxv, max(0, int(round(float(m[k] * s_ + o_))))))
+        cand = [tuple(codes)]
+        # the affine map is monotone in each code: also try the box corners nearest to the model
+        lo, hi = (0, maxv) if full else (16 << (bd - 8), 240 << (bd - 8))
+        for a in (lo, hi):
+            for b in (lo, hi):
+                cand.append((codes[0], a, b))
+        for (y, u, v) in cand:
+            r = native.replay_native(ctx, "yuv", ["dec", T, bd, int(full), mc, y, u, v], both_profiles=False)
+            if r.get("reproduced"):
+                return r
+            outs.append(r)
+    elif kind == "c02":
+        if not all(k in m for k in ("r", "g", "b")):
+            return {"reproduced": None, "detail": "model values not found"}
+        cand = [[m["r"], m["g"], m["b"]]]
+        for px in cand:
+            r = native.replay_native(ctx, "yuv", ["enc", T, bd, int(full), mc] + [fb(c) for c in px], both_profiles=False)
+            if r.get("reproduced"):
+                return r
+            outs.append(r)
+    else:
+        if not all(k in m for k in ("cy", "cu", "cv")):
+            return {"reproduced": None, "detail": "model values not found"}
+        base = [min(maxv, max(0, int(round(float(m[k]))))) for k in ("cy", "cu", "cv")]
+        cand = [tuple(base)] + [tuple(min(maxv, max(0, base[i] + d[i])) for i in range(3)) for d in ((1, 0, 0), (0, 1, 0), (0, 0, 1), (-1, 0, 0), (0, -1, 0), (0, 0, -1))]
+        for (y, u, v) in cand:
+            r = native.replay_native(ctx, "yuv", ["rt", T, bd, int(full), mc, y, u, v], both_profiles=False)
+            if r.get("reproduced"):
+                return r
+            outs.append(r)
+    return outs[-1] if outs else {"reproduced": None, "detail": "no candidate"}
